@@ -106,7 +106,7 @@ func c03Case(f *evid.Flags, idx int, hits *[9]map[string]int) *gen.Program {
 func c03(args []string) int {
 	f := mustFlags(args)
 	out := evid.New("C03")
-	total := f.N(50000, 2000000)
+	total := f.N(150000, 10000000)
 	var hits [9]map[string]int
 	x := &gen.Exec{}
 	for idx := 0; idx < total; idx++ {
